@@ -91,6 +91,10 @@ type Builder struct {
 	// Pending holds extra methods created while generating a method (":conv" targets that are
 	// themselves generated in the same run).
 	Pending []*Method
+	// PkgNameMode varies the per-scenario imported package: "" (package m in directory m), "differs"
+	// (package mq in directory m, imported without a name), "alias-collide" (package clause "ext" in
+	// directory m, imported with the explicit name m next to the real vb/ext).
+	PkgNameMode string
 }
 
 var baseWords = []string{"Id", "Name", "Val", "Cnt", "Tag", "Ref", "Opt", "Nest", "List", "Kind", "Code", "Flag", "Size", "Txt", "Aux", "Key"}
@@ -497,7 +501,10 @@ func (b *Builder) genMap(ctx pairCtx, src, dst *SDecl, name string) {
 	t := simpleTypes[b.R.Intn(len(simpleTypes))]
 	dst.Fields = append(dst.Fields, FDecl{Name: name, Type: t})
 	dpath := joinPath(ctx.dstPath, name)
-	variant := b.pick(map[string]int{"field": 4, "getter": 3, "nestedsrc": 2, "arg": 3, "argpath": 2, "unresolved": 1, "wrongcase": 1, "gettererr": 1, "typed": 2, "hiddenseg": 1})
+	variant := b.pick(map[string]int{"field": 4, "getter": 3, "nestedsrc": 2, "arg": 3, "argpath": 2, "unresolved": 1, "wrongcase": 1, "gettererr": 2, "typed": 2, "hiddenseg": 1, "arggettererr": 2})
+	if variant == "arggettererr" && isReverse(m) {
+		variant = "gettererr"
+	}
 	if variant == "hiddenseg" {
 		t = "int"
 		dst.Fields[len(dst.Fields)-1].Type = t
@@ -552,6 +559,31 @@ func (b *Builder) genMap(ctx pairCtx, src, dst *SDecl, name string) {
 		src.Methods = append(src.Methods, fmt.Sprintf("func (r %s) %s() (%s, error) {\n\tvtr.Enter(%q)\n\tif vtr.Fail(%q) {\n\t\tvar z %s\n\t\treturn z, vtr.ErrOf(%q)\n\t}\n\treturn r.%s, nil\n}\n",
 			src.Name, other, t, site, site, t, site, hidden))
 		m.Notations = append(m.Notations, Notation{Name: "map", Args: []string{sp(other + "()"), dpath}})
+		m.ErrSites = append(m.ErrSites, site)
+		if !m.HasErr {
+			if b.chance(b.P.ConvErrInNoErr) {
+				b.S.InConv = false
+				b.S.Feature("reject_hint", "err-callback-in-noerr-method")
+			} else {
+				m.HasErr = true
+			}
+		}
+	case "arggettererr":
+		// an error-returning getter of an ADDITIONAL ARGUMENT: ':map $n.Get() X'
+		ns := b.newStruct("", "AX")
+		ns.Fields = append(ns.Fields, FDecl{Name: "gDeep", Type: t})
+		site := ns.Name + ".Deep"
+		ns.Methods = append(ns.Methods, fmt.Sprintf("func (r %s) Deep() (%s, error) {\n\tvtr.Enter(%q)\n\tif vtr.Fail(%q) {\n\t\tvar z %s\n\t\treturn z, vtr.ErrOf(%q)\n\t}\n\treturn r.gDeep, nil\n}\n",
+			ns.Name, t, site, site, t, site))
+		idx := b.ensureExtra(m, ns.Ref())
+		if m.Extras[idx].Type != ns.Ref() {
+			// no free slot for the argument: fall back to a plain field mapping
+			src.Fields = append(src.Fields, FDecl{Name: other, Type: t})
+			m.Notations = append(m.Notations, Notation{Name: "map", Args: []string{sp(other), dpath}})
+			variant = "field"
+			break
+		}
+		m.Notations = append(m.Notations, Notation{Name: "map", Args: []string{fmt.Sprintf("$%d.Deep()", idx+2), dpath}})
 		m.ErrSites = append(m.ErrSites, site)
 		if !m.HasErr {
 			if b.chance(b.P.ConvErrInNoErr) {
@@ -1042,7 +1074,16 @@ func (b *Builder) Finish() *Scenario {
 	}
 	su.WriteString(bs)
 	s.Files[s.Setup] = su.String()
-	if b.usesM && b.R != nil && b.chance(0.15) {
+	mode := b.PkgNameMode
+	if mode == "" && b.usesM && b.R != nil {
+		switch x := b.R.Float64(); {
+		case x < 0.12:
+			mode = "differs"
+		case x < 0.2:
+			mode = "alias-collide"
+		}
+	}
+	if b.usesM && mode == "differs" {
 		// the imported package's name differs from the last element of its import path
 		reQ := regexp.MustCompile(`(^|[^A-Za-z0-9_."])m\.([A-Z])`)
 		for _, f := range []string{s.PkgRel + "/types.go", s.Setup} {
@@ -1050,6 +1091,17 @@ func (b *Builder) Finish() *Scenario {
 		}
 		s.Files[s.PkgRel+"/m/m.go"] = strings.Replace(s.Files[s.PkgRel+"/m/m.go"], "package m\n", "package mq\n", 1)
 		s.Feature("pkgname_differs_from_dir", "true")
+	}
+	if b.usesM && mode == "alias-collide" {
+		// explicit import name equal to the last path element while the package clause says "ext",
+		// the name of another package that is imported as well
+		imp := "\"" + s.PkgPath() + "/m\""
+		for _, f := range []string{s.PkgRel + "/types.go", s.Setup} {
+			s.Files[f] = strings.Replace(s.Files[f], "\t"+imp+"\n", "\tm "+imp+"\n", 1)
+			s.Files[f] = strings.Replace(s.Files[f], "\t_ "+imp+"\n", "\t_ "+imp+"\n", 1)
+		}
+		s.Files[s.PkgRel+"/m/m.go"] = strings.Replace(s.Files[s.PkgRel+"/m/m.go"], "package m\n", "package ext\n", 1)
+		s.Feature("pkgname_alias_collides", "true")
 	}
 	s.DrvImports = append(s.DrvImports, "\"vb/ext\"")
 	if b.usesM {
@@ -1099,9 +1151,9 @@ func Errs() Profile {
 	p := Broad()
 	p.Name = "errs"
 	p.Mechs = map[string]int{"same": 10, "conv": 40, "map": 25, "nested": 15, "skip": 3, "none": 3, "getter": 5, "ptrnested": 4}
-	p.PErr = 0.85
+	p.PErr = 0.7
 	p.PHooks = 0.6
-	p.ConvErrInNoErr = 0.1
+	p.ConvErrInNoErr = 0.3
 	p.MinFields, p.MaxFields = 3, 8
 	return p
 }
